@@ -167,10 +167,39 @@ def run(ctx):
     from vf.oracles import posix_tz_ref as PZ
     pz = PZ.PosixZone('EST', -18000, 'EDT', -14400, ('M', 3, 2, 0), 7200, ('M', 11, 1, 0), 7200)
     tz_sched.sweep(ctx, tz, pz, ctx.rng, 120 if ctx.tier == 'quick' else 1500)
+    if ctx.shard == 0:
+        # conversions through zone objects shared by four free-running threads (every zone class; instants around the
+        # transitions of several years, so per-zone memos are fought over); outcomes compared with the single-threaded
+        # ones, which carry the judgments made above
+        from vf import concurrent as CC
+        import datetime as D
+        import io
+        shared = [tz.tzstr('EST5EDT,M3.2.0,M11.1.0'), tz.tzstr('AEST-10AEDT,M10.1.0,M4.1.0/3'), tz.tzrange('CET', 3600, 'CEST', 7200),
+                  tz.tzoffset('X', -12600), tz.UTC, tz.tzlocal(),
+                  tz.tzical(io.StringIO(tzzoo.vtimezone_text(pz, first_year=1990))).get()]
+        for name in ('Europe/London', 'America/New_York', 'Australia/Lord_Howe'):
+            z = tz.gettz(name)
+            if z is not None:
+                shared.append(z)
+        pool = []
+        for zi in range(len(shared)):
+            for y in (1995, 2004, 2011, 2020):
+                for mth, day in ((3, 8), (3, 14), (3, 28), (4, 3), (10, 5), (10, 25), (10, 31), (11, 1), (11, 7), (6, 15)):
+                    for h in (0, 2, 6, 7, 16):
+                        pool.append((zi, D.datetime(y, mth, day, h, 30, tzinfo=tz.UTC)))
+
+        def conv(a):
+            loc = a[1].astimezone(shared[a[0]])
+            back = loc.astimezone(tz.UTC)
+            return (loc.replace(tzinfo=None), loc.fold, loc.utcoffset(), loc.tzname(), loc.dst(), back == a[1])
+        CC.concurrent_pure(ctx, 'conversions', ['dateutil.tz.tz', 'dateutil.tz._common'], conv, pool, 10 if ctx.tier == 'quick' else 150,
+                           per_thread=40, prob=.2, render=lambda a: '%r -> zone %r' % (a[1].isoformat(), shared[a[0]]))
 
 
 def floors(agg, tier):
     c, h, out = agg['counters'], agg['hits'], []
+    from vf import concurrent as CC
+    CC.floor(c, 'conversions', 1200, 1000, out)
     for k, n in (('zones_fixed', 8), ('zones_tzfile', 30 if tier == 'quick' else 300), ('zones_tzfile-synthetic', 15), ('zones_tzstr', 20),
                  ('zones_tzrange', 20), ('zones_tzical', 8), ('zones_tzlocal', 20), ('truth_comparisons', 50000)):
         if c.get(k, 0) < n:
